@@ -10,9 +10,10 @@
    property names it.  [inhabitsF pytype_devs] is membership with six named local deviations switched on
    (Model.v, record [devs]); [slices v] are the monomorphic slices of v (one element kept per container), the
    concrete counterpart of pytype's views. *)
-From Coq Require Import List Arith Bool.
+From Coq Require Import List Arith Bool ZArith.
 From PV Require Import Match.Model Match.Proofs Match.SliceExact Match.Witnesses Generated.C02_Builtins.
 From PV Require Match.ArgSite Match.ArgSiteProofs Match.Store Match.StoreProofs Match.Proto Match.ProtoProofs.
+From PV Require Import Match.Lit Match.LitProofs Match.LitWitnesses.
 Import ListNotations.
 
 (* ---- the full statement is refuted on the faithful model ------------------------------------------------ *)
@@ -329,3 +330,118 @@ Example protocol_hyps_hold :
   Proto.proto_match ProtoProofs.w1 0 6 1 = true /\
   Proto.inst_match ProtoProofs.w1 0 4 1 = true /\ Proto.inst_match ProtoProofs.w1 0 5 4 = false.
 Proof. exact ProtoProofs.pattrs_example_w. Qed.
+
+(* ============================================================================================================ *)
+(* (e) LITERAL TYPES, nested Optional/Union around them, a constant against its base class in both directions, and
+   the RETURN SITE with several return statements and multi-binding return variables (Match/Lit.v).
+   [matchL] is the matcher on the fragment (LiteralClass branch of _match_instance_against_type, the
+   match_as_literal branch of _match_instance_parameters, _match_heterogeneous_tuple_instance);
+   [inhabitsL] is PEP 484 + PEP 586 membership; [inhabL pytype_ldevs pytype_devs] is membership with the named
+   deviations on (two new ones: Python equality True == 1 for Literal; ONE matching element of a list display
+   suffices for h[...Literal...]). *)
+
+(* what the matcher computes, exactly: any table accepted by table_ok, unbounded nesting *)
+Theorem literal_matcher_characterisation : forall tb v t,
+  table_ok tb = true -> wf_lty tb t = true -> wf_lval v = true ->
+  errL_arg tb v t = negb (inhabL pytype_ldevs pytype_devs tb t v) /\
+  errL_ret tb v t = negb (inhabL pytype_ldevs pytype_devs tb t v) /\
+  errL_assign tb v t = (negb (l_is_none v) && negb (inhabL pytype_ldevs pytype_devs tb t v))%bool.
+Proof. exact lit_sites_char. Qed.
+Print Assumptions literal_matcher_characterisation.
+
+(* exactness at the three sites under syntactic conditions that fail exactly on the deviations: no bool literal in
+   the annotation and no bool constant in the value, list displays of at most one element, no bare bool / bytes
+   formal (the None-for-bool and bytearray-for-bytes compat pairs) *)
+Theorem literal_exact_partial : forall tb v t,
+  table_ok tb = true -> wf_lty tb t = true -> wf_lval v = true ->
+  bool_free_ty t = true -> bool_free_val v = true -> short_lists v = true -> base_dev_free t = true ->
+  matchL tb t v = inhabitsL tb v t /\
+  errL_arg tb v t = negb (inhabitsL tb v t) /\
+  errL_ret tb v t = negb (inhabitsL tb v t) /\
+  (l_is_none v = false -> errL_assign tb v t = negb (inhabitsL tb v t)).
+Proof. exact lit_exact_partial_w. Qed.
+Print Assumptions literal_exact_partial.
+
+(* without "no bool": x: Literal[1] = True is accepted at all three sites *)
+Theorem literal_exact_refuted_bool :
+  exists v t, table_ok tb0 = true /\ wf_lty tb0 t = true /\ wf_lval v = true /\
+              short_lists v = true /\ base_dev_free t = true /\
+              errL_arg tb0 v t = false /\ errL_ret tb0 v t = false /\ errL_assign tb0 v t = false /\
+              inhabitsL tb0 v t = false.
+Proof. exact lit_refuted_bool_w. Qed.
+Print Assumptions literal_exact_refuted_bool.
+
+(* without "short lists": x: List[Literal[1]] = [1, 3] is accepted at all three sites *)
+Theorem literal_exact_refuted_list :
+  exists v t, table_ok tb0 = true /\ wf_lty tb0 t = true /\ wf_lval v = true /\
+              bool_free_ty t = true /\ bool_free_val v = true /\ base_dev_free t = true /\
+              errL_arg tb0 v t = false /\ errL_ret tb0 v t = false /\ errL_assign tb0 v t = false /\
+              inhabitsL tb0 v t = false.
+Proof. exact lit_refuted_list_w. Qed.
+Print Assumptions literal_exact_refuted_list.
+
+Example literal_hyps_hold :
+  hypsL (LC (LStr 0)) ex_lt1 = true /\ inhabitsL tb0 (LC (LStr 0)) ex_lt1 = true /\ matchL tb0 ex_lt1 (LC (LStr 0)) = true /\
+  hypsL (LC (LStr 1)) ex_lt1 = true /\ inhabitsL tb0 (LC (LStr 1)) ex_lt1 = false /\ errL_ret tb0 (LC (LStr 1)) ex_lt1 = true /\
+  hypsL LNoneV ex_lt1 = true /\ inhabitsL tb0 LNoneV ex_lt1 = true /\
+  hypsL (LT [Ci 1%Z; LC (LStr 5)]) ex_lt2 = true /\ inhabitsL tb0 (LT [Ci 1%Z; LC (LStr 5)]) ex_lt2 = true /\
+  hypsL (LT [Ci 2%Z; LC (LStr 5)]) ex_lt2 = true /\ errL_arg tb0 (LT [Ci 2%Z; LC (LStr 5)]) ex_lt2 = true /\
+  hypsL (LL [LC (LStr 1)]) ex_lt3 = true /\ inhabitsL tb0 (LL [LC (LStr 1)]) ex_lt3 = true /\
+  hypsL (LT [LC (LStr 1); LC (LStr 2)]) ex_lt3 = true /\ errL_assign tb0 (LT [LC (LStr 1); LC (LStr 2)]) ex_lt3 = true /\
+  hypsL (Ci 1%Z) (LBase (Cb B_float [])) = true /\ inhabitsL tb0 (Ci 1%Z) (LBase (Cb B_float [])) = true /\
+  hypsL (LO B_int) (Li 1%Z) = true /\ errL_ret tb0 (LO B_int) (Li 1%Z) = true /\
+  hypsL (LC (LStr 0)) ex_lt3 = true /\ errL_arg tb0 (LC (LStr 0)) ex_lt3 = true.
+Proof. exact lit_hyps_w. Qed.
+
+(* ---- return site ------------------------------------------------------------------------------------------- *)
+(* a returned variable with several bindings is in error iff ONE binding is (the views of the variable are the
+   views of its bindings; match_all_views) *)
+Theorem return_multi_binding : forall tb bs t,
+  err_ret_var tb bs t = existsb (fun v => err_ret tb v t) bs.
+Proof. exact ret_var_error_iff_w. Qed.
+Print Assumptions return_multi_binding.
+
+(* every return statement is judged on its own: the error lines of a body are those of its parts *)
+Theorem return_per_statement : forall tb ann b1 b2,
+  ret_errors tb ann (b1 ++ b2) = ret_errors tb ann b1 ++ ret_errors tb ann b2.
+Proof. exact ret_errors_app_w. Qed.
+Print Assumptions return_per_statement.
+
+(* return-site exactness, ground fragment: bad-return-type is logged at line l iff a return statement at l can
+   return a value outside the annotation (same two hypotheses per binding as sites_exact_partial) *)
+Theorem return_site_exact_partial : forall tb t body,
+  table_ok tb = true -> wf_ty tb t = true ->
+  (forall s v, In s body -> In v (rs_vals s) ->
+     wf_val tb v = true /\
+     (forall sl, In sl (slices v) -> inhabitsF pytype_devs tb t sl = inhabits tb sl t) /\
+     forallb (fun sl => inhabits tb sl t) (slices v) = inhabits tb v t) ->
+  forall l, In l (ret_errors tb (Some t) body) <->
+            exists s, In s body /\ rs_line s = l /\ exists v, In v (rs_vals s) /\ inhabits tb v t = false.
+Proof. exact ret_site_exact_w. Qed.
+Print Assumptions return_site_exact_partial.
+
+(* return-site exactness, Literal fragment *)
+Theorem return_site_literal_exact_partial : forall tb t body,
+  table_ok tb = true -> wf_lty tb t = true -> bool_free_ty t = true -> base_dev_free t = true ->
+  (forall s v, In s body -> In v (lrs_vals s) ->
+     wf_lval v = true /\ bool_free_val v = true /\ short_lists v = true) ->
+  forall l, In l (lret_errors tb (Some t) body) <->
+            exists s, In s body /\ lrs_line s = l /\ exists v, In v (lrs_vals s) /\ inhabitsL tb v t = false.
+Proof. exact lret_site_exact_w. Qed.
+Print Assumptions return_site_literal_exact_partial.
+
+(* ... and with the deviations named, no side condition is left *)
+Theorem return_site_literal_characterisation : forall tb t body,
+  table_ok tb = true -> wf_lty tb t = true ->
+  (forall s v, In s body -> In v (lrs_vals s) -> wf_lval v = true) ->
+  forall l, In l (lret_errors tb (Some t) body) <->
+            exists s, In s body /\ lrs_line s = l /\
+                      exists v, In v (lrs_vals s) /\ inhabL pytype_ldevs pytype_devs tb t v = false.
+Proof. exact lret_site_char_w. Qed.
+Print Assumptions return_site_literal_characterisation.
+
+Example return_examples :
+  (lret_errors tb0 (Some (LUnion [Li 1%Z; Li 2%Z])) ex_body = [5; 7] /\ lret_errors tb0 None ex_body = []) /\
+  (ret_errors tb0 (Some (Cb B_list [Cb B_int []])) ex_rbody = [5] /\
+   length (ret_views [VColl KList [Int]; VColl KList [Int; Str]]) = 3).
+Proof. exact (conj lret_example_w ret_example_w). Qed.
